@@ -9,7 +9,7 @@ os.makedirs(dst, exist_ok=True)
 shutil.copy(os.path.join(src, m + '.diff'), os.path.join(dst, 'patch.diff'))
 shutil.copy(os.path.join(src, m + '_demo.py'), os.path.join(dst, 'demo.py'))
 conf = subprocess.run([os.path.join(root, 'tools/confirm_mutant2.sh'), tag, m], stdout=subprocess.PIPE, text=True).stdout.strip()
-meta = {'property': new.split('-')[0], 'id': new, 'round': 2,
+meta = {'property': new.split('-')[0], 'id': new, 'round': int(os.environ.get('ROUND', '2')),
         'author': 'independent sub-agent given only the property text, a scratch worktree and one-line summaries of the changes already tried',
         'needs_to_manifest': open(os.path.join(src, m + '.md')).read(),
         'confirmed': {'how': 'tools/confirm_mutant2.sh %s %s' % (tag, m), 'result': conf},
